@@ -393,7 +393,19 @@ impl AggregateUDFImpl for Count {
             // Only column references can be resolved from statistics;
             // expressions like casts or literals are not supported.
             let col_expr = expr.downcast_ref::<expressions::Column>()?;
-            if let Precision::Exact(dc) = col_stats[col_expr.index()].distinct_count {
+            let col_stats = &col_stats[col_expr.index()];
+            // The distinct count of a column is only reliable when the number
+            // of rows is known: e.g. a projected literal or a column filtered
+            // with `=` has one distinct value only if there is at least one row.
+            let Precision::Exact(num_rows) = statistics_args.statistics.num_rows
+            else {
+                return None;
+            };
+            // No (non-null) value at all: empty input or only NULLs
+            if num_rows == 0 || col_stats.null_count == Precision::Exact(num_rows) {
+                return Some(ScalarValue::Int64(Some(0)));
+            }
+            if let Precision::Exact(dc) = col_stats.distinct_count {
                 let dc = i64::try_from(dc).ok()?;
                 return Some(ScalarValue::Int64(Some(dc)));
             }
